@@ -18,6 +18,7 @@ import transval, evalback
 
 COQ = os.path.join(ROOT, 'coq')
 GPROPS = os.path.join(COQ, 'gprops')
+os.makedirs(GPROPS, exist_ok=True)          # (a fresh checkout has no generated-obligation directory yet)
 TOL = 1e-9
 _tmp = []          # files / directories to remove at exit
 
